@@ -25,7 +25,7 @@ theorem dropWhile_eq_nil_all {α : Type} (p : α → Bool) : ∀ l : List α, l.
       · rw [e]; exact hp
       · exact dropWhile_eq_nil_all p l h a e
 
-theorem takeWhile_all {α : Type} (p : α → Bool) : ∀ l : List α, ∀ a ∈ l.takeWhile p, p a = true
+theorem takeWhile_sat {α : Type} (p : α → Bool) : ∀ l : List α, ∀ a ∈ l.takeWhile p, p a = true
   | [], a, h => by cases h
   | b :: l, a, h => by
     rw [List.takeWhile_cons] at h
@@ -36,7 +36,7 @@ theorem takeWhile_all {α : Type} (p : α → Bool) : ∀ l : List α, ∀ a ∈
       simp only [if_true] at h
       rcases List.mem_cons.1 h with e | e
       · rw [e]; exact hp
-      · exact takeWhile_all p l a e
+      · exact takeWhile_sat p l a e
 
 namespace Forest
 
@@ -128,7 +128,7 @@ theorem only_normal_child {f : Forest} (inv : f.Inv) {n c : Nat}
         simp [hcat] at hns
     refine ⟨k, ?_, hfc⟩
     rw [kidsOf_of_get hg, hL, hrest, List.filter_append,
-      filter_normal_nil (fun a ha => takeWhile_all abn L a ha)]
+      filter_normal_nil (fun a ha => takeWhile_sat abn L a ha)]
     simp [hknorm]
 
 /-! ### `append` of a parentless node under a node without a normal last child -/
@@ -414,5 +414,146 @@ theorem textContentSet_refused {f : Forest} (inv : f.Inv) {n : Nat} {s : Str}
   | ok => exact absurd hr h
   | err e => exact textContentSet_err hr
   | panic => exact absurd hr (textContentSet_no_panic inv n s)
+
+/-! ### The frame of `specTextContentSet` -/
+
+section Frame
+variable {f : Forest} {n : Nat} {v : Value} {L : List HTree}
+
+/-- No normal child: the new-child case of the specification. -/
+theorem specTextContentSet_new_eq (s : Str) (hg : f.get? n = some (.node n v L))
+    (hk : L.filter (fun k => k.value.isNormal) = []) :
+    Spec.specTextContentSet n s f =
+      { f.editAt (some n) (insertLast (.node f.next (.text s) [])) with next := f.next + 1 } := by
+  unfold Spec.specTextContentSet
+  rw [Forest.kidsOf_of_get hg, hk]
+
+/-- One normal child: exactly its value changes (framed by the `specSetValue_…` theorems). -/
+theorem specTextContentSet_one_eq (s : Str) {c : HTree} (hg : f.get? n = some (.node n v L))
+    (hk : L.filter (fun k => k.value.isNormal) = [c]) :
+    Spec.specTextContentSet n s f = Spec.specSetValue c.handle (.text s) f := by
+  unfold Spec.specTextContentSet
+  rw [Forest.kidsOf_of_get hg, hk]
+
+/-- Several normal children: the specification leaves the forest alone (xot refuses). -/
+theorem specTextContentSet_many_eq (s : Str) {a b : HTree} {r : List HTree}
+    (hg : f.get? n = some (.node n v L)) (hk : L.filter (fun k => k.value.isNormal) = a :: b :: r) :
+    Spec.specTextContentSet n s f = f := by
+  unfold Spec.specTextContentSet
+  rw [Forest.kidsOf_of_get hg, hk]
+
+/-- New-child case: every old handle is kept and exactly one new handle, `f.next`, appears. -/
+theorem specTextContentSet_new_handles (s : Str) (nd : f.allHandles.Nodup)
+    (hg : f.get? n = some (.node n v L)) (hk : L.filter (fun k => k.value.isNormal) = []) :
+    (Spec.specTextContentSet n s f).allHandles.Perm (f.next :: f.allHandles) ∧
+      (Spec.specTextContentSet n s f).next = f.next + 1 := by
+  rw [specTextContentSet_new_eq s hg hk]
+  refine ⟨?_, rfl⟩
+  show (f.editAt (some n) (insertLast (.node f.next (.text s) []))).allHandles.Perm _
+  rw [List.perm_iff_count]
+  intro z
+  have st : SiteAt f n v L := ⟨nd, hg⟩
+  have := st.count (insertLast (.node f.next (.text s) [])) z
+  have e : insertLast (.node f.next (.text s) []) L = L ++ [.node f.next (.text s) []] := rfl
+  rw [e, handlesList_append, List.count_append, count_handles_leaf] at this
+  rw [List.count_cons]
+  simp only [beq_iff_eq]
+  omega
+
+/-- New-child case: the element afterwards — its old children, in order, then the new text node. -/
+theorem specTextContentSet_new_get_self (s : Str) (hg : f.get? n = some (.node n v L))
+    (hk : L.filter (fun k => k.value.isNormal) = []) :
+    (Spec.specTextContentSet n s f).get? n = some (.node n v (L ++ [.node f.next (.text s) []])) := by
+  rw [specTextContentSet_new_eq s hg hk]
+  exact Forest.get?_editAt_self _ hg
+
+theorem findList?_insertLast_fresh {x h : Nat} (hx : x ≠ h) (vv : Value) (K : List HTree) :
+    findList? x (insertLast (.node h vv []) K) = findList? x K := by
+  unfold insertLast
+  rw [findList?_append, findList?_cons, findList?_nil, find?_node, if_neg (fun e => hx e.symm), findList?_nil]
+  cases findList? x K <;> rfl
+
+/-- New-child case: every subtree that does not hold the element is still there, unchanged. -/
+theorem specTextContentSet_new_get_far (s : Str) (nd : f.allHandles.Nodup) (hfresh : f.next ∉ f.allHandles)
+    (hg : f.get? n = some (.node n v L)) (hk : L.filter (fun k => k.value.isNormal) = [])
+    {x : Nat} {t : HTree} (hx : f.get? x = some t) (hn : n ∉ handles t) :
+    (Spec.specTextContentSet n s f).get? x = some t := by
+  rw [specTextContentSet_new_eq s hg hk]
+  have hxt : t.handle = x := (findList?_some f.roots t hx).1
+  have hxn : x ≠ n := fun e => hn (e ▸ hxt ▸ handle_mem_handles t)
+  have hxf : x ≠ f.next := fun e => hfresh (e ▸ mem_of_findList?_some hx)
+  show (f.editAt (some n) (insertLast (.node f.next (.text s) []))).get? x = _
+  rw [Forest.get?_editAt_other hxn nd (fun _ K _ => findList?_insertLast_fresh hxf _ K), hx, Option.map_some,
+    editAt_of_not_mem t hn]
+
+/-- New-child case: handles stay distinct. -/
+theorem specTextContentSet_new_nodup (s : Str) (nd : f.allHandles.Nodup) (hfresh : f.next ∉ f.allHandles)
+    (hg : f.get? n = some (.node n v L)) (hk : L.filter (fun k => k.value.isNormal) = []) :
+    (Spec.specTextContentSet n s f).allHandles.Nodup := by
+  rw [specTextContentSet_new_eq s hg hk]
+  exact nodup_insertLast_fresh (X := f) ⟨nd, hg⟩ hfresh _
+
+/-- New-child case: a node under another parent keeps parent, siblings (in order) and value. -/
+theorem specTextContentSet_new_ctx_other (s : Str) (nd : f.allHandles.Nodup) (hfresh : f.next ∉ f.allHandles)
+    (hg : f.get? n = some (.node n v L)) (hk : L.filter (fun k => k.value.isNormal) = [])
+    {x : Nat} {cx : Ctx} (hx : f.ctx? x = some cx) (hne : cx.parent ≠ n) :
+    ∃ cx', (Spec.specTextContentSet n s f).ctx? x = some cx' ∧ cx'.shape = cx.shape := by
+  have hnd := specTextContentSet_new_nodup s nd hfresh hg hk
+  rw [specTextContentSet_new_eq s hg hk] at hnd ⊢
+  have st : SiteAt f n v L := ⟨nd, hg⟩
+  have hpf : cx.parent ≠ f.next := by
+    obtain ⟨_, vv, e1⟩ := Forest.kids_of_ctx nd hx
+    exact fun e => hfresh (e ▸ mem_of_findList?_some e1)
+  exact st.frame _ hnd hx hne (findList?_insertLast_fresh hpf _ L)
+
+/-- New-child case: an old child of the element keeps its place; the new node is added at the end. -/
+theorem specTextContentSet_new_ctx_kid (s : Str) (nd : f.allHandles.Nodup) (hfresh : f.next ∉ f.allHandles)
+    (hk : L.filter (fun k => k.value.isNormal) = []) {l r : List HTree} {k : HTree}
+    (hL : L = l ++ k :: r) (hg : f.get? n = some (.node n v L)) :
+    (Spec.specTextContentSet n s f).ctx? k.handle =
+      some ⟨n, l, k, r ++ [.node f.next (.text s) []]⟩ := by
+  have hnd := specTextContentSet_new_nodup s nd hfresh hg hk
+  have hget := specTextContentSet_new_get_self s hg hk
+  rw [hL, List.append_assoc, List.cons_append] at hget
+  exact Forest.ctx_of_kids hnd hget
+
+/-- New-child case: the new node is the last child of the element. -/
+theorem specTextContentSet_new_ctx_new (s : Str) (nd : f.allHandles.Nodup) (hfresh : f.next ∉ f.allHandles)
+    (hg : f.get? n = some (.node n v L)) (hk : L.filter (fun k => k.value.isNormal) = []) :
+    (Spec.specTextContentSet n s f).ctx? f.next = some ⟨n, L, .node f.next (.text s) [], []⟩ ∧
+      (Spec.specTextContentSet n s f).get? f.next = some (.node f.next (.text s) []) := by
+  have hnd := specTextContentSet_new_nodup s nd hfresh hg hk
+  have hget := specTextContentSet_new_get_self s hg hk
+  exact ⟨Forest.ctx_of_kids (s := .node f.next (.text s) []) hnd hget,
+    findList?_kid (s := .node f.next (.text s) []) _ hnd hget⟩
+
+/-- New-child case: a parentless tree stays parentless. -/
+theorem specTextContentSet_new_root (s : Str) (nd : f.allHandles.Nodup) (hfresh : f.next ∉ f.allHandles)
+    (hg : f.get? n = some (.node n v L)) (hk : L.filter (fun k => k.value.isNormal) = [])
+    {x : Nat} (hx : f.isRoot x = true) : (Spec.specTextContentSet n s f).ctx? x = none := by
+  have hnd := specTextContentSet_new_nodup s nd hfresh hg hk
+  rw [specTextContentSet_new_eq s hg hk] at hnd ⊢
+  exact frame_root _ hnd hx
+
+end Frame
+
+/-! ### The statements on a closed example -/
+
+/-- `<e1 a2="a"><e3>x</e3><e5 a6="b"/></e1>`: handles 0 (e1), 1 (attribute), 2 (e3), 3 (text),
+    4 (e5), 5 (attribute). -/
+def setSample : Forest :=
+  { roots := [.node 0 (.element 1) [.node 1 (.attribute 2 ['a']) [],
+      .node 2 (.element 3) [.node 3 (.text ['x']) []],
+      .node 4 (.element 5) [.node 5 (.attribute 6 ['b']) []]]], next := 6 }
+
+example : setSample.inv = true := by decide
+example : (setSample.textContentSet 2 ['y']).2 = .ok ∧
+    (setSample.textContentSet 2 ['y']).1 = Spec.specTextContentSet 2 ['y'] setSample := by decide
+example : (setSample.textContentSet 4 ['y']).2 = .ok ∧
+    (setSample.textContentSet 4 ['y']).1 = Spec.specTextContentSet 4 ['y'] setSample := by decide
+example : (setSample.textContentSet 4 ['y']).1.get? 4 =
+    some (.node 4 (.element 5) [.node 5 (.attribute 6 ['b']) [], .node 6 (.text ['y']) []]) := by decide
+example : setSample.textContentSet 0 ['y'] = (setSample, .err .invalidOperation) := by decide
+example : (setSample.setText 3 ['z']).2 = .ok ∧ (setSample.setComment 3 ['z']).2 ≠ .ok := by decide
 
 end XotModel
